@@ -51,6 +51,7 @@ type Obligation struct {
 }
 
 type Ctx struct {
+	typedVisits map[*ssa.Function]*typedVisit
 	Repo     string
 	Verif    string
 	Property string
